@@ -13,6 +13,7 @@ RULE = ('exhaustive: specifier {simple,salted,iterated} x 7 hashes x every ciphe
         'passphrase 0..5000 octets, str/bytes). Each derived key is compared with the independent streaming implementation, directly and '
         'after the specifier was serialised and re-parsed. Non-trivial: more than one hash context, or count < len(salt+passphrase), or '
         'count not a multiple of it, or non-ASCII/bytes passphrase; distinct by the full parameter tuple.')
+RULE += ' History worker: one String2Key object whose cipher, hash, salt, count, specifier are edited in place (or re-parsed) between derivations; every derivation is compared with the reference for the parameters then held.'
 ASSUMPTIONS = ['hashlib digests are trusted (shared)', 'three- and four-context derivations cannot be produced through PGPy (its cipher table has no '
                'key above 256 bits and no digest below 128 bits), so contexts are limited to one or two',
                'passphrases are str (UTF-8 encoded by PGPy) or bytes, as documented']
